@@ -3,6 +3,7 @@
 apply patch.diff to /repo's working tree, run ./check <property> (quick unless --tier), revert.
 Writes /verif/seeded/results.json.   usage: run_seeds.py [--tier quick] [--only name-substr]"""
 import argparse, json, os, subprocess, sys, time
+os.environ["VERIF_EVIDENCE_DIR"] = "/var/tmp/vp-scratch-evidence"
 VERIF = os.path.dirname(os.path.dirname(os.path.abspath(__file__)))
 ap = argparse.ArgumentParser(); ap.add_argument("--tier", default="quick"); ap.add_argument("--only", action="append", default=[])
 a = ap.parse_args()
